@@ -87,4 +87,17 @@ Accepts(pr, selected, given) ==
      /\ \A grp \in CycleGroups(pr, act) :
           LET sat == {i \in grp : Satisfied(pr, act, i, have)}
           IN sat # {} /\ \A i, j \in sat : EntryParams(pr, act, i) = EntryParams(pr, act, j)
+
+\* with an explicit entry point e (runner.run(..., entrypoint=e)): e's parameters must be supplied;
+\* the other cycles are checked as above
+AcceptsAt(pr, selected, given, e) ==
+  LET sp == Spec(pr, selected)
+      act == ActiveFor(pr, selected)
+      have == given \cup {pr.bound[k][1] : k \in 1..Len(pr.bound)}
+      ei == IdxOf(pr, e)
+  IN /\ sp.required \subseteq have
+     /\ ei \in EntryNodes(pr, act) /\ Satisfied(pr, act, ei, have)
+     /\ \A grp \in CycleGroups(pr, act) : ei \notin grp =>
+          LET sat == {i \in grp : Satisfied(pr, act, i, have)}
+          IN sat # {} /\ \A i, j \in sat : EntryParams(pr, act, i) = EntryParams(pr, act, j)
 =======================================================================
